@@ -5,27 +5,34 @@ go 1.23
 require (
 	github.com/dappledger/AnnChain v0.0.0
 	github.com/ethereum/go-ethereum v1.8.27
+	github.com/spf13/viper v0.0.0-20171207042631-1a0c4a370c3e
+	go.uber.org/zap v0.0.0-20170802171341-e68420e36ce8
 	golang.org/x/crypto v0.0.0-20190426145343-a29dc8fdc734
 	pgregory.net/rapid v1.3.0
 )
 
 require (
+	github.com/BurntSushi/toml v0.3.1 // indirect
+	github.com/allegro/bigcache v1.2.0 // indirect
+	github.com/aristanetworks/goarista v0.0.0-20180424004133-70dca2f27708 // indirect
 	github.com/btcsuite/btcd v0.0.0-20190427004231-96897255fd17 // indirect
 	github.com/fsnotify/fsnotify v1.4.7 // indirect
+	github.com/go-stack/stack v1.8.0 // indirect
 	github.com/golang/snappy v0.0.0-20180518054509-2e65f85255db // indirect
+	github.com/hashicorp/golang-lru v0.5.0 // indirect
 	github.com/hashicorp/hcl v1.0.0 // indirect
 	github.com/magiconair/properties v1.8.0 // indirect
+	github.com/mitchellh/go-homedir v0.0.0-20161203194507-b8bc1bf76747 // indirect
 	github.com/mitchellh/mapstructure v1.1.2 // indirect
 	github.com/pelletier/go-toml v1.2.0 // indirect
+	github.com/pkg/errors v0.8.1 // indirect
 	github.com/spf13/afero v1.1.2 // indirect
 	github.com/spf13/cast v1.3.0 // indirect
 	github.com/spf13/jwalterweatherman v0.0.0-20170901151539-12bd96e66386 // indirect
 	github.com/spf13/pflag v1.0.1 // indirect
-	github.com/spf13/viper v0.0.0-20171207042631-1a0c4a370c3e // indirect
 	github.com/syndtr/goleveldb v0.0.0-20170725064836-b89cc31ef797 // indirect
 	go.uber.org/atomic v0.0.0-20170719224650-70bd1261d36b // indirect
 	go.uber.org/multierr v1.1.0 // indirect
-	go.uber.org/zap v0.0.0-20170802171341-e68420e36ce8 // indirect
 	golang.org/x/sys v0.0.0-20190602015325-4c4f7f33c9ed // indirect
 	golang.org/x/text v0.3.1-0.20181227161524-e6919f6577db // indirect
 	gopkg.in/natefinch/lumberjack.v2 v2.0.0-20170531160350-a96e63847dc3 // indirect
